@@ -597,6 +597,27 @@ func (r *run) genSeq(rng *sim.RNG) {
 		quietRate = []float64{0.05, 0.15, 0.3}[rng.Intn(3)]
 	}
 	stalled := -1 // a stalled seat: nobody touches it for a window
+	// most histories start from a populated table (otherwise the majority
+	// of Next() calls is refused and little of the position logic runs)
+	if rng.Chance(0.7) {
+		m := 2 + rng.Intn(n-1)
+		for _, seat := range rng.Perm(n)[:m] {
+			o := opSpec{Kind: "join", Seat: seat, PID: nextPID()}
+			if rng.Chance(0.3) {
+				o.Seat = -1
+			}
+			r.record(stepOf(o))
+			res := r.seqOp(o)
+			if r.dead {
+				return
+			}
+			if res.Err == "" && rng.Chance(0.85) {
+				o2 := opSpec{Kind: "sit", Seat: res.Seat}
+				r.record(stepOf(o2))
+				r.seqOp(o2)
+			}
+		}
+	}
 	for i := 0; i < steps && !r.dead; i++ {
 		if rng.Chance(0.05) {
 			stalled = rng.Intn(n)
